@@ -166,35 +166,16 @@ def r3(cx, rec):
         ks = keys_read(g[0])
         rec.site(g[0], None, '%s reads %s' % (nm, ks))
         rec.need(ks == want, 'field-key/' + nm, g[0], None, '%s reads keys %s, expected %s' % (nm, ks, want))
-    # per-file keys in the file-list builder
-    fl = [f for f in F.user_fns() if f.path.startswith('metainfo::') and mirq.agg_sites(f, r'^metainfo::File$') and f.kind == 'Closure']
-    for cf in fl:
-        for bi, si, e in mirq.agg_sites(cf, r'^metainfo::File$'):
-            fs = dict(e[4])
-            rec.site(cf, bi, 'File{length <- %s, path <- %s}' % (show(fs['length'])[-30:], show(fs['path'])[-30:]))
-            rec.need(re.search(r'\.0<Ok>\.0$', show(fs['length'])) is not None and re.search(r'\.1<Ok>\.0$', show(fs['path'])) is not None, 'file-fields', cf, bi,
-                     'File fields are built from %s / %s' % (show(fs['length'])[-50:], show(fs['path'])[-50:]))
-    owner = [f for f in F.user_fns() if f.path == 'metainfo::Metainfo::file_list']
-    if owner:
-        tup = []
-        for c in F.children(owner[0].path):
-            cf = F.fns[c]
-            for bi, si, s in cf.assigns():
-                if s['rv']['k'] == 'agg' and s['rv'].get('ak') == 'tuple' and len(s['rv']['ops']) == 2:
-                    x = cf.expr_rvalue(s['rv'])
-                    if all(v[0] == 'call' and v[4].get('name') == 'get' for _, v in x[4]):
-                        order = [re.findall(r'b"([a-z ]+)"', show(v))[-1] for _, v in x[4]]
-                        tup.append(order)
-                        rec.site(cf, bi, 'per-file keys %s' % order)
-        rec.need(tup == [['length', 'path']], 'file-keys', owner[0], None, 'per-file keys are %s, expected [length, path]' % tup)
-    # the list builders only pattern-match: no value comparison silently drops entries
-    if owner:
-        for c2 in F.children(owner[0].path):
-            cf = F.fns[c2]
-            extra = [show(cf.cond(sb)[0])[:60] for sb in cf.switches() if cf.cond(sb)[0][0] != 'discr']
-            rec.site(cf, None, 'non-pattern conditions in the file-list closure: %s' % extra)
-            rec.need(not extra, 'file-list-extra-filter', cf, None,
-                     'the file list drops entries by a value test (%s): the parsed list no longer equals the document' % extra)
+    # per-file keys in the file-list builder (adaptor chain or explicit loop; fields normalised over the list element)
+    fl = [f for f in F.user_fns() if f.locals[0]['ty'] == 'std::vec::Vec<metainfo::File>' and f.argc >= 1 and 'BValue' in f.locals[f.argc]['ty']]
+    L = C.one(fl, 'file-list builder (Vec<BValue> -> Vec<File>)')
+    C.check_list_records(F, rec, L, r'^metainfo::File$', {'length': ('length', 'Int'), 'path': ('path', 'ByteStr')}, 'file-fields')
+    # the list builder only pattern-matches: no value comparison silently drops entries
+    for cf in [L] + [F.fns[c2] for c2 in F.children(L.path)]:
+        extra = [show(cf.cond(sb)[0])[:60] for sb in cf.switches() if cf.cond(sb)[0][0] != 'discr']
+        rec.site(cf, None, 'non-pattern conditions in the file-list builder: %s' % extra)
+        rec.need(not extra, 'file-list-extra-filter', cf, None,
+                 'the file list drops entries by a value test (%s): the parsed list no longer equals the document' % extra)
     # single-file layout: File{length: <find_length>, path: name}
     for bi, si, e in mirq.agg_sites(P, r'^metainfo::File$'):
         fs = dict(e[4])
